@@ -6,6 +6,7 @@ mod gen;
 mod hist;
 mod model;
 mod oracle;
+mod props_algo;
 mod props_model;
 mod props_path;
 mod rng;
@@ -69,6 +70,11 @@ fn main() {
         "C06" => props_path::run_c06(&a),
         "C08" => props_path::run_c08(&a),
         "C09" => props_model::run_c09(&a),
+        "C10" => props_algo::run_c10(&a),
+        "C11" => props_algo::run_c11(&a),
+        "C12" => props_algo::run_c12(&a),
+        "C13" => props_algo::run_c13(&a),
+        "C18" => props_algo::run_c18(&a),
         "C15" => props_model::run_c15(&a),
         other => {
             eprintln!("unknown property {}", other);
